@@ -368,8 +368,11 @@ def run_part(rep, tier, rng):
     import copy
     demo = None
     for _o, b in behs:
+        produced = set()        # numbers of the computing calls whose result was returned (not refused)
         for k, st in enumerate(b[1:], 1):
-            stored = [n for n in st["names"] if st["val"][n] > 1 and st["op"]["name"] in ("Call", "Transform")]
+            if st["op"]["name"] in ("Call", "Transform") and st["status"] == "Ok":
+                produced.add(st["op"]["id"])
+            stored = [n for n in st["names"] if st["val"][n] > 1 and st["val"][n] - 1 in produced and st["op"]["name"] in ("Call", "Transform")]
             if stored:
                 demo = copy.deepcopy(b[: k + 1])
                 demo[k]["val"][stored[0]] = demo[k]["val"][stored[0]] - 1
